@@ -391,11 +391,32 @@ def detach_wake_rule(rep, u, states, fname="tp_thread_dettach"):
     is reached only when the caller is the thread itself or after a message send to it was tried."""
     fn = tp.need(u, fname)
     rep.functions.add(fname)
-    stores = [(pos, x) for pos, root, x, ps in fn.nodes() if x.get("k") == "bin" and x["op"] == "=" and core.strip_casts(x["x"]).get("k") == "mem" and
-              core.strip_casts(x["x"])["f"] == "state" and const_val(x["y"]) == states["STOPING"]]
+    plain = [(pos, x) for pos, root, x, ps in fn.nodes() if x.get("k") == "bin" and x["op"] == "=" and core.strip_casts(x["x"]).get("k") == "mem" and
+             core.strip_casts(x["x"])["f"] == "state" and const_val(x["y"]) == states["STOPING"]]
+    cas = [(pos, c) for pos, root, c, ps in fn.calls() if "compare_and_swap" in (c.get("fn") or "") and len(c["args"]) >= 3 and const_val(c["args"][2]) == states["STOPING"] and
+           "state" in key(c["args"][0])]
+    stores = plain + cas
     if not stores:
         raise driver.AnalysisBroken("%s: store of the STOPING state not found" % fname)
-    n = 0
+    n = 1
+    # the target sets STOP itself as its last access: a plain store after a test of the state can land behind it and leave
+    # the slot in STOPING with no thread (attach refused for ever, tp_destroy polls for ever): the transition is a CAS from a live state
+    desc = "%s: another thread's state goes to STOPING only by compare-and-swap from a live state" % fname
+    (rep.violated if plain else rep.proved)("R-WAKE", fn, "detach-state-cas", desc, "plain store at line %s: two detaches of the same thread - the second lands after the thread wrote STOP, "
+                                            "tp_thread_attach_first() then fails for ever and tp_destroy() never returns" % plain[0][1].get("ln") if plain else "%d CAS" % len(cas))
+    # the pool virtual thread has no thread behind it: detaching it would take away its stop hook and refuse sends to it
+    pv = False
+    for bid in fn.reachable_blocks():
+        c = fn.blocks[bid].cond
+        if c is None:
+            continue
+        # (one link of a short-circuit chain: before the stores, with an edge that leaves)
+        if any(y.get("k") == "mem" and y["f"] == "pvt" for y, _ in walk(c)) and all(p_[0] in fn.reach_from([bid]) for p_, _x in stores) and \
+           any(not any(p_[0] in fn.reach_from([s_]) or p_[0] == s_ for p_, _x in stores) for s_ in fn.blocks[bid].rsucc()):
+            pv = True
+    n += 1
+    (rep.proved if pv else rep.violated)("R-WAKE", fn, "detach-refuses-virtual-thread", "%s: the pool virtual thread is refused" % fname, "" if pv else
+                                         "tp_thread_dettach(tp_thread_get_pvt(tp)) puts the virtual thread into STOPING: tp_shutdown then skips its stop hook (start x1, stop x0)")
     for pos, x in stores:
         n += 1
         selftest = False
